@@ -177,7 +177,10 @@ def build_unit(chk):
     i = hs.index("static void havoc_state(void) {")
     j = hs.index("/* Hoare triple for one iteration")
     text += "#ifdef HEX_CBMC\n_Bool nondet_bool(void);\n" + hs[i:j] + "#endif\n" + HARNESS
-    return chk.write("c06_unit.c", text), {"RESET_BEGIN": rb, "RESET_END": re_, "prologue": prologue}
+    # loop-carried locals of hextb's run() other than the known ones are arbitrary at an R-point (R does not mention them)
+    hav = "".join("  %s = (%s)nondet_u64();\n" % (n, t) for t, n, v in prologue["extra_locals"])
+    text = text.replace("  /* registers equal */\n", hav + "  /* registers equal */\n", 1)
+    return chk.write("c06_unit.c", text), {"RESET_BEGIN": rb, "RESET_END": re_, "prologue": prologue["stmts"], "extra_locals": prologue["extra_locals"]}
 
 
 def native(chk):
